@@ -91,7 +91,7 @@ func C20(tier string) int {
 	}
 	usable := func(e rm.Expr) bool {
 		for _, s := range rm.Symbols(e) {
-			if strings.HasPrefix(s, "places") || s == "name" || s == "people" {
+			if strings.HasPrefix(s, "places") || s == "name" || s == "people" || strings.Contains("."+s+".", ".sk.") || strings.Contains("."+s+".", ".chief.") {
 				return false
 			}
 		}
